@@ -134,15 +134,23 @@ def run(
     if env:
         e.update(env)
     t0 = time.time()
-    r = TlcResult()
-    try:
-        p = subprocess.run(cmd, cwd=wd.path, env=e, capture_output=True, text=True, timeout=timeout)
-        r.rc = p.returncode
-        r.out = p.stdout + p.stderr
-    except subprocess.TimeoutExpired as ex:
-        r.timed_out = True
-        r.rc = -1
-        r.out = (ex.stdout or b"").decode(errors="replace") if isinstance(ex.stdout, bytes) else (ex.stdout or "")
+    for attempt in (1, 2):
+        r = TlcResult()
+        try:
+            p = subprocess.run(cmd, cwd=wd.path, env=e, capture_output=True, text=True, timeout=timeout)
+            r.rc = p.returncode
+            r.out = p.stdout + p.stderr
+        except subprocess.TimeoutExpired as ex:
+            r.timed_out = True
+            r.rc = -1
+            r.out = (ex.stdout or b"").decode(errors="replace") if isinstance(ex.stdout, bytes) else (ex.stdout or "")
+        # a JVM that was killed or died without TLC's own closing line (memory pressure on a
+        # busy machine) is retried once; genuine TLC verdicts and spec errors are not
+        died = (not r.timed_out) and r.rc not in (0, 10, 11, 12, 13) and "Finished in" not in r.out and "Error:" not in r.out
+        if not died:
+            break
+        shutil.rmtree(meta, ignore_errors=True)
+        os.makedirs(meta, exist_ok=True)
     r.wall = time.time() - t0
     shutil.rmtree(meta, ignore_errors=True)
     _parse(r)
